@@ -4,7 +4,12 @@ value and every visit is logged) on all shapes of rank 1..4 with lengths 1..3 an
 counter and complete log compared with the Coq state-passing model.  One-operand functions: each of the 45
 functions on label arrays over a value pool; the result is compared, position by position, with the same function
 on one-element arrays at the label the model (map with identity) places there; integer-exact functions
-(negative, absolute, square, floor, ceil, trunc, fix, sign) also by value against the Z model."""
+(negative, absolute, square, floor, ceil, trunc, fix, sign) also by value against the Z model.
+frexp / ldexp: doubles given exactly as (mantissa, exponent) integer pairs — every binade from the smallest
+subnormal to f64::MAX, powers of two, values next to binade boundaries, random 53-bit mantissas — decomposed,
+recombined and scaled by exponents in [-2200, 2200]; results are decoded bit-exactly to (odd mantissa, exponent)
+and compared with the Coq dyadic model wherever the exact result is a double (overflow must give the infinity of
+the right sign; an inexact subnormal result is only required to be within the two neighbouring doubles)."""
 import itertools
 from common import *
 import vlib
@@ -22,10 +27,100 @@ CLOSURES = ["map_log", "map_e_log", "filter_log", "filter_e_log", "filter_map_lo
             "for_each_e_log", "into_iter"]
 
 
+def _pairs(tok):
+    """`parr(2x2:m/e,...)` -> (shape string, [(m, e), ...]) or None"""
+    if not tok.startswith("parr(") or not tok.endswith(")"):
+        return None
+    d, _, body = tok[5:-1].partition(":")
+    return d, [tuple(int(x) for x in p.split("/")) for p in body.split(",") if p]
+
+
+def _bitlen(m):
+    return abs(m).bit_length()
+
+
+def _dy_agree(impl, model):
+    """impl doubles (decoded) against exact dyadic results"""
+    a, b = _pairs(impl), _pairs(model)
+    if a is None or b is None:
+        return vlib.canon(impl) == vlib.canon(model)
+    if a[0] != b[0] or len(a[1]) != len(b[1]):
+        return False
+    for (im, ie), (mm, me) in zip(a[1], b[1]):
+        if me >= 100000 or mm == 0:
+            ok = (im, ie) == (mm, me)
+        elif _bitlen(mm) + me > 1024:                       # exact result beyond f64::MAX: the infinity of that sign
+            ok = ie == 100000 and (im > 0) == (mm > 0)
+        elif me < -1074:                                    # not representable (below the subnormal grid): a neighbour
+            lo = (abs(mm) >> (-1074 - me))
+            cand = {lo, lo + 1}
+            val = abs(im) << (ie + 1074) if ie >= -1074 else None
+            ok = val in cand and ((im >= 0) == (mm > 0) or im == 0)
+        else:
+            ok = (im, ie) == (mm, me)
+        if not ok:
+            return False
+    return True
+
+
 def agree(case, impl, model):
     if case.startswith("ew1@"):
         return vlib.table_agree(impl, model, 1)
+    head = case.split(" ")[0]
+    if head in ("ldexp", "frexp_ldexp"):
+        return _dy_agree(impl, model)
     return None
+
+
+def _rep(m, e):
+    """is m * 2^e a double?"""
+    if m == 0:
+        return True
+    while m % 2 == 0:
+        m //= 2; e += 1
+    return _bitlen(m) <= 53 and e >= -1074 and _bitlen(m) + e <= 1024
+
+
+def dyadic_cases(rng, tier):
+    out = []
+    vals = [(0, 0), (1, 0), (-1, 0), (3, -1), (1, -1074), (-1, -1074), (3, -1074), (1, -1073), (2 ** 52 - 1, -1074), (2 ** 52, -1074),
+            (2 ** 53 - 1, 971), (-(2 ** 53 - 1), 971), (1, 1023), (2 ** 53 - 1, -1075 + 1), (1, -1022), (1, -1023), (1, -1024),
+            (5, -1030), (-7, -1060), (2 ** 52 + 1, 970), (1, 1000), (1, -1000)]
+    for b in range(-1074, 1024, 7 if tier == "quick" else 1):            # one value per binade (step 7 in the quick tier)
+        bits = rng.randint(1, min(53, b + 1075))
+        m = rng.getrandbits(bits) | 1 | (1 << (bits - 1))
+        vals.append((m if rng.random() < 0.5 else -m, b - bits + 1))
+    for _ in range(150 if tier == "quick" else 3000):
+        bits = rng.randint(1, 53)
+        m = rng.getrandbits(bits) | (1 << (bits - 1))
+        e = rng.randint(-1074, 1024 - bits)
+        vals.append((m if rng.random() < 0.5 else -m, e))
+    vals = [v for v in vals if _rep(*v)]
+    # decomposition and recombination, one value per case and in arrays of rank 1..3
+    for m, e in vals:
+        out.append(f"frexp a1:{m} a1:{e}")
+        out.append(f"frexp_ldexp a1:{m} a1:{e}")
+    for sh in shapes(3, 3):
+        pick = [rng.choice(vals) for _ in range(prod(sh))]
+        ms, es = [p[0] for p in pick], [p[1] for p in pick]
+        out.append(f"frexp {arr(sh, ms)} {arr(sh, es)}")
+        out.append(f"frexp_ldexp {arr(sh, ms)} {arr(sh, es)}")
+        ks = [rng.randint(-60, 60) for _ in range(prod(sh))]
+        out.append(f"ldexp {arr(sh, ms)} {arr(sh, es)} {arr(sh, ks)}")
+        out.append(f"ldexp {arr(sh, ms)} {arr(sh, es)} a1:{rng.randint(-5, 5)}")               # exponent array is stretched
+        out.append(f"ldexp {arr(sh, ms)} {arr(sh, es)} {arr([sh[-1]], ks[:sh[-1]])}")
+        out.append(f"ldexp {arr(sh, ms)} {arr(sh, es)} {arr([sh[-1] + 1], [0] * (sh[-1] + 1))}")  # not broadcastable
+    # non-finite values pass through (frexp of an infinity used to hang: F26)
+    for m, e in ((1, 100000), (-1, 100000), (0, 100001)):
+        out.append(f"frexp a1:{m} a1:{e}")
+        out.append(f"frexp_ldexp a1:{m} a1:{e}")
+        out.append(f"ldexp a1:{m} a1:{e} a1:{rng.randint(-30, 30)}")
+        out.append(f"frexp a3:5,{m},-3 a3:0,{e},2")
+    # scaling across the whole exponent range, including results that overflow or fall below the subnormal grid
+    for m, e in vals[::3]:
+        for k in (0, 1, -1, rng.randint(-2200, 2200), 1024 - _bitlen(m) - e, 1025 - _bitlen(m) - e, -1074 - e, -1075 - e, -2098, 2098):
+            out.append(f"ldexp a1:{m} a1:{e} a1:{k}")
+    return out
 
 
 def gen(seed, tier):
@@ -56,4 +151,5 @@ def gen(seed, tier):
         out.append(f"{rng.choice(CLOSURES)} {arr(sh, es)}")
         op = rng.choice(UNARY)
         out.append(f"ew1@f64p s{hexs(op)} {arr(sh, [rng.randrange(20) for _ in range(prod(sh))])}")
+    out += dyadic_cases(rng, tier)
     return out
